@@ -13,6 +13,7 @@ import (
 
 	"go.sia.tech/core/consensus"
 	"go.sia.tech/core/types"
+	"go.sia.tech/coreutils/chain"
 	"verifharness/hx"
 	"verifharness/mat"
 )
@@ -155,6 +156,11 @@ func smallSpecs(seed int64, perRegime, blocks int, sharedWindows bool) (out []Tr
 		out = append(out, TreeSpec{Seed: seed*1000 + 800 + int64(10*k), Allow: 100, Require: 110, Final: 120, OpsPerBlk: 0,
 			Shape: []int{1, 2, 3, 3, 5}, Scripts: sc})
 	}
+	// the same, with the fork reaching the shared expiration height: the contracts then EXPIRE in the
+	// history-dependent order (their missed-proof outputs get other leaf indices: the tip STATE
+	// differs from a linear node's unless WithExpiringContractOrder pins the order)
+	out = append(out, TreeSpec{Seed: seed*1000 + 850, Allow: 100, Require: 110, Final: 120, OpsPerBlk: 0,
+		Shape: []int{1, 2, 3, 3, 5, 6}, Scripts: map[int][]string{2: {"fc1w", "fc1w", "fc1w"}, 4: {"sp1"}}})
 	out = append(out, TreeSpec{Seed: seed*1000 + 801, Allow: 100, Require: 110, Final: 120, OpsPerBlk: 0,
 		Shape: []int{1, 2, 2, 4, 5}, Scripts: map[int][]string{2: {"fc1w", "fc1w", "fc1w"}, 3: {"rev1b", "rev1b"}, 4: {"sc1"}, 5: {"rev1a"}}})
 	// v1 contracts sharing expiration heights, then forks that resolve / re-window them
@@ -326,6 +332,7 @@ func ledSets(l *ledJ) string {
 }
 
 type replayer struct {
+	pinned     bool // the current path's manager has the linear expiration order pinned
 	cacheEvery int // > 0: path pi runs on CacheDB(MemDB) when pi % cacheEvery == 1
 	deep  bool // also compare all buckets with a linear twin after every completed call (C02)
 	res   *hx.Result
@@ -380,6 +387,12 @@ func (r *replayer) compare(n *RNode, ti int, want stateJ, what string, replay an
 	if t.Node(p.Mem).L != nil && !p.StateOK && !p.OrderDiverged {
 		return mm("tipstate", "differs from linear replay", "equal")
 	}
+	if p.OrderDiverged {
+		r.res.Count("states_diverged_by_expiry_order", 1)
+	}
+	if r.pinned && t.Node(p.Mem).L != nil && !p.StateOK {
+		return mm("pinned-order-state", "differs from linear replay although the linear expiration order is pinned (WithExpiringContractOrder)", "equal")
+	}
 	// property-level audits on the real node, independent of the specification state
 	ok := true
 	if want.Pc.K == "idle" && want.Ret != "panic" && want.Ret != "rollbackfailed" {
@@ -420,6 +433,16 @@ func (r *replayer) runPath(pi int, path []edgeJ) {
 	if r.cacheEvery > 0 && pi%8 == 4 {
 		backend = "bolt"
 	}
+	// C02 (deep replay): every other path runs with chain.WithExpiringContractOrder pinning the linear
+	// order of every block's expiring contracts; the tip state must then ALWAYS be the linear one
+	pinned := r.deep && pi%2 == 0
+	MgrOpts = nil
+	if pinned {
+		MgrOpts = []chain.ManagerOption{chain.WithExpiringContractOrder(LinearExpiryOrder(t))}
+		r.res.Count("paths_with_pinned_expiry_order", 1)
+	}
+	defer func() { MgrOpts = nil }()
+	r.pinned = pinned
 	n := NewNodeOn(t.W, backend, true)
 	defer func() { n.DB.Close() }()
 	replay := map[string]any{"kind": "path", "path": path, "backend": backend}
